@@ -53,7 +53,7 @@ CLAIMED = {
     "C15": ("exploration", "single-pass iterator monitor (shared cursor, per-position deref/increment counts, stale-copy detection), bounds monitors on multi-pass iterators, generator call log",
             "Every range op x iterator kind x position x count from every canonical state (sweep) + range-heavy random histories.",
             "iterators are the harness's; a real stream iterator behaves like StreamIt", "3 C15"),
-    "C16": ("exploration", "exhaustive differential against std::vector over all pairs of sequences over {0,1,2} up to length 4, several element types and N pairs, C++17 six-operator and C++20 <=> builds",
+    "C16": ("exploration", "exhaustive differential against std::vector over all pairs of sequences over {0,1,2} up to length 4 (quick) / 6 (thorough), several element types and N pairs, C++17 six-operator and C++20 <=> builds",
             "Exhaustive over the stated finite space, incl. an element type with unordered (NaN) values and member/non-member swap state twins; thorough adds C++11/14/23 and clang.",
             "std::vector comparison semantics are the reference", "3 C16"),
     "C17": ("exploration", "differential over builds: digests of a portable C++11-subset corpus compared across g++ {11,14,17,20,23} x clang++ {11,14,17,20} x GCH_DISABLE_CONCEPTS, plus per-feature compile-acceptance probes",
@@ -66,7 +66,7 @@ CLAIMED = {
             "Thorough tier covers all 3976 configurations of the statement's grid (exhaustive); quick a seeded stratified subset of ~700. 258 configurations are recorded known findings.",
             "sizeof monotone in N; x86-64 ABI of GCC 12 / Clang 14", "3 C19"),
     "C20": ("exploration", "gdb batch-mode monitor: shipped printers and natvis member paths evaluated at a checkpoint after every op of a -O0 -g inferior, compared with the program's own dump",
-            "About 1800 (quick) / 30000 (thorough) checkpoints over 8 container types incl. N=0, class-type elements, stateful allocator.",
+            "About 1800 (quick) / 240000 (thorough) checkpoints over 8 container types incl. N=0, class-type elements, stateful allocator.",
             "natvis rendering by Visual Studio is not executed (member paths only)", "3 C20"),
 }
 
